@@ -846,6 +846,12 @@ func (b *BackendServer) roomHandler(w http.ResponseWriter, r *http.Request, body
 		return
 	}
 
+	if err := request.CheckValid(); err != nil {
+		log.Printf("Invalid request %s: %s", string(body), err)
+		http.Error(w, "Invalid request: "+err.Error(), http.StatusBadRequest)
+		return
+	}
+
 	request.ReceivedTime = time.Now().UnixNano()
 
 	var response any
